@@ -9,7 +9,10 @@ C08 — Restart backoff and fault counting are arithmetically correct.
 Tie: `Gen.C08.backoffDelay` is regenerated from actor/pid.go on every run (go2lean, Int64 with Go's
 shift semantics).  `backoff_refines` proves it equal to the Int model `Model.C08.backoff` for ALL
 2^192 int64 triples; every theorem below about `Gen.C08.backoffDelay` therefore speaks about the
-current source.  `recordFault` and `WithExponentialBackoff` are hand models tied by the differential.
+current source.  `Gen.C08.recordFault` (clock reading and the two atomics as parameters) and `Gen.C08.budgetExceeded` are
+regenerated too: `recordFault_refines` ties the Int model of recordFault to the source for every window, clock
+reading ≥ 0, stamp and counter (so the exact boundary now-last = window is covered);
+`WithExponentialBackoff` is a hand model tied by the differential.
 
 Outcome: the full statement holds (C08_holds).  History: before the `shift >= 63` fix the early cap
 fired at shift 62 and backoffDelay(63, 1ns, max > 2^62 ns) returned max instead of 2^62 ns (C08-F1).
@@ -18,6 +21,7 @@ import GoaktVerif.Gen.C08
 import GoaktVerif.Model.C08
 import GoaktVerif.Spec.C08
 import GoaktVerif.Lemmas.C08
+import GoaktVerif.Lemmas.FixedWidth
 
 namespace GoaktVerif.C08
 open GoaktVerif.Model.C08 GoaktVerif.Spec.C08 GoaktVerif.C08L
@@ -258,11 +262,74 @@ theorem C08_consequences :
       exact Int64.le_refl _
     · exact delay_mono n₁ n₂ i m h hn
 
+/-! ### recordFault and the budget test, regenerated from pid.go -/
+
+theorem add_one_toInt (a : Int64) (h : a.toInt < 2 ^ 63 - 1) : (a + 1).toInt = a.toInt + 1 := by
+  have hb := a.le_toInt
+  rw [Int64.toInt_add]
+  have : (1 : Int64).toInt = 1 := rfl
+  rw [this]
+  apply Int.bmod_eq_of_le <;> omega
+
+theorem sub_toInt (a b : Int64) (ha : 0 ≤ a.toInt) (hb : 0 < b.toInt) : (a - b).toInt = a.toInt - b.toInt := by
+  have h1 := a.toInt_lt
+  have h2 := b.toInt_lt
+  rw [Int64.toInt_sub]
+  apply Int.bmod_eq_of_le <;> omega
+
+/-- the Int64 definition of recordFault regenerated from pid.go equals the Int model, for every window,
+    every non-negative clock reading, every stored stamp and every counter value below MaxInt64 -/
+theorem recordFault_refines (window clock lastAt faults : Int64)
+    (hclock : 0 ≤ clock.toInt) (hf : faults.toInt < 2 ^ 63 - 1) :
+    (Gen.C08.recordFault window clock lastAt faults).1.toInt
+        = (recordFault window.toInt clock.toInt ⟨faults.toInt, lastAt.toInt⟩).1
+    ∧ (Gen.C08.recordFault window clock lastAt faults).2.1.toInt
+        = (recordFault window.toInt clock.toInt ⟨faults.toInt, lastAt.toInt⟩).2.last
+    ∧ (Gen.C08.recordFault window clock lastAt faults).2.2.toInt
+        = (recordFault window.toInt clock.toInt ⟨faults.toInt, lastAt.toInt⟩).2.count := by
+  have e0 : (0 : Int64).toInt = 0 := rfl
+  have z1 : ((0 : Int64) + 1).toInt = 0 + 1 := add_one_toInt 0 (by rw [e0]; decide)
+  unfold Gen.C08.recordFault recordFault
+  simp only [Bool.and_eq_true, decide_eq_true_eq, gt_iff_lt, Int64.lt_iff_toInt_lt, e0]
+  by_cases hl : 0 < lastAt.toInt
+  · rw [sub_toInt clock lastAt hclock hl]
+    by_cases hc : (0 < window.toInt ∧ 0 < lastAt.toInt) ∧ window.toInt < clock.toInt - lastAt.toInt
+    · have hc' : window.toInt > 0 ∧ lastAt.toInt > 0 ∧ clock.toInt - lastAt.toInt > window.toInt :=
+        ⟨hc.1.1, hc.1.2, hc.2⟩
+      rw [if_pos hc, if_pos hc']
+      exact ⟨z1, rfl, z1⟩
+    · have hc' : ¬ (window.toInt > 0 ∧ lastAt.toInt > 0 ∧ clock.toInt - lastAt.toInt > window.toInt) :=
+        fun h => hc ⟨⟨h.1, h.2.1⟩, h.2.2⟩
+      rw [if_neg hc, if_neg hc']
+      exact ⟨add_one_toInt faults hf, rfl, add_one_toInt faults hf⟩
+  · have hc : ¬ ((0 < window.toInt ∧ 0 < lastAt.toInt) ∧ window.toInt < (clock - lastAt).toInt) :=
+      fun h => hl h.1.2
+    have hc' : ¬ (window.toInt > 0 ∧ lastAt.toInt > 0 ∧ clock.toInt - lastAt.toInt > window.toInt) :=
+      fun h => hl h.2.1
+    rw [if_neg hc, if_neg hc']
+    exact ⟨add_one_toInt faults hf, rfl, add_one_toInt faults hf⟩
+
+/-- the restart budget test of handleRestartDirective, regenerated: maxRetries > 0 ∧ window > 0 ∧ faults > maxRetries -/
+theorem budgetExceeded_spec (mr : UInt32) (faults window : Int64) :
+    Gen.C08.budgetExceeded mr faults window
+      = decide (0 < mr.toNat ∧ 0 < window.toInt ∧ (mr.toNat : Int) < faults.toInt) := by
+  unfold Gen.C08.budgetExceeded
+  have e0 : (0 : Int64).toInt = 0 := rfl
+  have hm : (0 : UInt32) < mr ↔ 0 < mr.toNat := by
+    rw [UInt32.lt_iff_toNat_lt]; rfl
+  simp only [gt_iff_lt, Int64.lt_iff_toInt_lt, e0, GoaktVerif.FixedWidth.uint32_toUInt64_toInt64_toInt, hm]
+  by_cases a : 0 < mr.toNat <;> by_cases b : 0 < window.toInt <;> by_cases c : (mr.toNat : Int) < faults.toInt <;> simp [a, b, c]
+
 /-! ### non-vacuity -/
 example : Configured (100000000 : Int64).toInt (30000000000 : Int64).toInt := by right; decide
 example : (Gen.C08.backoffDelay 63 1 9223372036854775807).toInt = 4611686018427387904 := by decide  -- the former C08-F1 corner
 example : (Gen.C08.backoffDelay 3 100000000 30000000000).toInt = 400000000 := by decide
 example : (Gen.C08.backoffDelay 30 1099511627777 2199023255552).toInt = 2199023255552 := by decide  -- the old wrap witness now saturates
 example : (recordFaults 10 [100, 105, 110, 125, 126] ⟨0, 0⟩) = [1, 2, 3, 1, 2] := by decide
+
+-- recordFault_refines is not vacuous: a reset exactly one nanosecond past the window, none at the boundary
+example : (Gen.C08.recordFault 10 111 100 7).1 = 1 := by decide
+example : (Gen.C08.recordFault 10 110 100 7).1 = 8 := by decide
+example : Gen.C08.budgetExceeded 3 4 1000 = true ∧ Gen.C08.budgetExceeded 3 3 1000 = false ∧ Gen.C08.budgetExceeded 3 9 0 = false := by decide
 
 end GoaktVerif.C08
